@@ -165,8 +165,112 @@ fn final_table_check(env: &Env) -> bool {
 	ok
 }
 
+// ---------------------------------------------------------------------------
+// per-worker pool of OS threads whose ThreadKey is known to be free.  Spawning
+// a thread per logical thread per case makes 16 workers fight over the
+// process-wide mmap lock; a thread is reused only if, after its job, its key is
+// obtainable again (a case that leaks the key retires the thread).
+
+type Job = Box<dyn FnOnce() + Send + 'static>;
+
+pub struct KeyThread {
+	tx: mpsc::Sender<Job>,
+	done: mpsc::Receiver<bool>,
+}
+
+thread_local! {
+	static POOL: std::cell::RefCell<Vec<KeyThread>> = const { std::cell::RefCell::new(Vec::new()) };
+}
+
+fn spawn_key_thread() -> KeyThread {
+	let (tx, rx) = mpsc::channel::<Job>();
+	let (dtx, drx) = mpsc::channel::<bool>();
+	std::thread::Builder::new()
+		.stack_size(1 << 20)
+		.spawn(move || {
+			while let Ok(job) = rx.recv() {
+				let _ = std::panic::catch_unwind(std::panic::AssertUnwindSafe(job));
+				uninstall();
+				let clean = match ThreadKey::get() {
+					Some(k) => {
+						drop(k);
+						true
+					}
+					None => false,
+				};
+				if dtx.send(clean).is_err() || !clean {
+					break;
+				}
+			}
+		})
+		.expect("spawn");
+	KeyThread { tx, done: drx }
+}
+
+pub fn take_thread() -> KeyThread {
+	POOL.with(|p| p.borrow_mut().pop()).unwrap_or_else(spawn_key_thread)
+}
+
+impl KeyThread {
+	pub fn start(&self, job: Job) {
+		let _ = self.tx.send(job);
+	}
+	/// wait for the job to end; the thread goes back to the pool if its key is free
+	pub fn finish(self, timeout: Duration) -> bool {
+		match self.done.recv_timeout(timeout) {
+			Ok(true) => {
+				POOL.with(|p| {
+					let mut p = p.borrow_mut();
+					if p.len() < 8 {
+						p.push(self);
+					}
+				});
+				true
+			}
+			Ok(false) => true,
+			Err(_) => false,
+		}
+	}
+}
+
+thread_local! {
+	/// this OS thread's ThreadKey can no longer be trusted to be free (a case
+	/// leaked it, or a broken tree lost it): run cases on fresh threads instead
+	static KEY_DIRTY: std::cell::Cell<bool> = const { std::cell::Cell::new(false) };
+}
+
+fn case_forgets(case: &SeqCase) -> bool {
+	case.steps.iter().any(|(t, s)| *t as usize % (case.nthreads.max(1) as usize) == 0 && matches!(s, Step::ForgetKey | Step::Release { how: ReleaseHow::Forget }))
+}
+
 pub fn run_seq(case: &SeqCase, opts: Opts) -> RunResult {
 	silence_panics();
+	if KEY_DIRTY.with(|d| d.get()) || case_forgets(case) {
+		// a fresh OS thread has a fresh key
+		let case = case.clone();
+		let (rtx, rrx) = mpsc::channel::<RunResult>();
+		let th = take_thread();
+		th.start(Box::new(move || {
+			let r = run_seq_inner(&case, opts);
+			let _ = rtx.send(r);
+		}));
+		let r = rrx
+			.recv_timeout(Duration::from_secs(120))
+			.unwrap_or_else(|_| RunResult { inconclusive: Some("harness thread panicked or hung".into()), ..Default::default() });
+		th.finish(Duration::from_secs(5));
+		return r;
+	}
+	let r = run_seq_inner(case, opts);
+	match ThreadKey::get() {
+		Some(k) => drop(k),
+		None => KEY_DIRTY.with(|d| d.set(true)),
+	}
+	r
+}
+
+/// Logical thread 0 runs on the calling OS thread; the others get their own
+/// OS thread and are driven step by step through channels.
+fn run_seq_inner(case: &SeqCase, opts: Opts) -> RunResult {
 	let n = case.nthreads.max(1) as usize;
 	let env = match make_env(&case.world, n, opts) {
 		Ok(e) => e,
@@ -175,47 +279,36 @@ pub fn run_seq(case: &SeqCase, opts: Opts) -> RunResult {
 	let (done_tx, done_rx) = mpsc::channel::<(Tid, bool)>();
 	let mut cmd_txs = Vec::new();
 	let mut handles = Vec::new();
-	for t in 0..n {
+	for t in 1..n {
 		let (tx, rx) = mpsc::channel::<Cmd>();
 		cmd_txs.push(tx);
 		let env = env.clone();
 		let done = done_tx.clone();
-		let h = std::thread::Builder::new()
-			.stack_size(512 * 1024)
-			.spawn(move || {
-				QUIET_ALL.with(|q| q.set(false));
-				install(&env.exec, t as Tid);
-				let mut ctx = ThreadCtx::new(t as Tid);
-				while let Ok(cmd) = rx.recv() {
-					match cmd {
-						Cmd::Step(idx, step) => {
-							let r = std::panic::catch_unwind(std::panic::AssertUnwindSafe(|| run_step(&env, &mut ctx, idx, &step)));
-							let aborted = match r {
-								Ok(StepEnd::Continue) => false,
-								Ok(StepEnd::Aborted) => true,
-								Err(p) => {
-									match classify_panic(p) {
-										PanicKind::Abort => {}
-										PanicKind::Other(m) => env.finding("PANIC", t as Tid, format!("harness-panic|{}", first_words(&m)), m),
-										_ => env.finding("PANIC", t as Tid, "harness-panic|escaped", "a panic escaped the step interpreter"),
-									}
-									true
-								}
-							};
-							let _ = done.send((t as Tid, aborted));
-						}
-						Cmd::Finish => {
-							finish_thread(&env, &mut ctx);
-							let _ = done.send((t as Tid, false));
-							break;
-						}
+		let h = take_thread();
+		h.start(Box::new(move || {
+			install(&env.exec, t as Tid);
+			let mut ctx = ThreadCtx::new(t as Tid);
+			while let Ok(cmd) = rx.recv() {
+				match cmd {
+					Cmd::Step(idx, step) => {
+						let aborted = guarded_step(&env, &mut ctx, idx, &step);
+						let _ = done.send((t as Tid, aborted));
+					}
+					Cmd::Finish => {
+						finish_thread(&env, &mut ctx);
+						drop(ctx);
+						let _ = done.send((t as Tid, false));
+						break;
 					}
 				}
-				uninstall();
-			})
-			.expect("spawn");
+			}
+			uninstall();
+			drop(env);
+		}));
 		handles.push(h);
 	}
+	install(&env.exec, 0);
+	let mut ctx0 = ThreadCtx::new(0);
 	let mut hung = false;
 	let mut aborted = false;
 	for (idx, (tid, step)) in case.steps.iter().enumerate() {
@@ -225,20 +318,26 @@ pub fn run_seq(case: &SeqCase, opts: Opts) -> RunResult {
 				env.exec.arm_faults(f.plan.clone());
 			}
 		}
-		if cmd_txs[t].send(Cmd::Step(idx, step.clone())).is_err() {
-			hung = true;
-			break;
-		}
-		match done_rx.recv_timeout(Duration::from_secs(30)) {
-			Ok((_, a)) => {
-				if a {
-					aborted = true;
-				}
+		if t == 0 {
+			if guarded_step(&env, &mut ctx0, idx, step) {
+				aborted = true;
 			}
-			Err(_) => {
+		} else {
+			if cmd_txs[t - 1].send(Cmd::Step(idx, step.clone())).is_err() {
 				hung = true;
-				env.exec.set_abort();
 				break;
+			}
+			match done_rx.recv_timeout(Duration::from_secs(30)) {
+				Ok((_, a)) => {
+					if a {
+						aborted = true;
+					}
+				}
+				Err(_) => {
+					hung = true;
+					env.exec.set_abort();
+					break;
+				}
 			}
 		}
 		if let Some(f) = &case.fault {
@@ -250,11 +349,14 @@ pub fn run_seq(case: &SeqCase, opts: Opts) -> RunResult {
 			break;
 		}
 	}
+	finish_thread(&env, &mut ctx0);
+	drop(ctx0);
+	uninstall();
 	if !hung {
 		for tx in &cmd_txs {
 			let _ = tx.send(Cmd::Finish);
 		}
-		for _ in 0..n {
+		for _ in 1..n {
 			if done_rx.recv_timeout(Duration::from_secs(30)).is_err() {
 				hung = true;
 				env.exec.set_abort();
@@ -266,7 +368,7 @@ pub fn run_seq(case: &SeqCase, opts: Opts) -> RunResult {
 	let mut all_joined = true;
 	if !hung {
 		for h in handles {
-			if h.join().is_err() {
+			if !h.finish(Duration::from_secs(30)) {
 				all_joined = false;
 			}
 		}
@@ -294,6 +396,24 @@ pub fn run_seq(case: &SeqCase, opts: Opts) -> RunResult {
 		std::mem::forget(env);
 	}
 	r
+}
+
+/// run one step; true = the case is over (aborted)
+fn guarded_step(env: &Arc<Env>, ctx: &mut ThreadCtx, idx: usize, step: &Step) -> bool {
+	let t = ctx.tid;
+	let r = std::panic::catch_unwind(std::panic::AssertUnwindSafe(|| run_step(env, ctx, idx, step)));
+	match r {
+		Ok(StepEnd::Continue) => false,
+		Ok(StepEnd::Aborted) => true,
+		Err(p) => {
+			match classify_panic(p) {
+				PanicKind::Abort => {}
+				PanicKind::Other(m) => env.finding("PANIC", t, format!("harness-panic|{}", first_words(&m)), m),
+				_ => env.finding("PANIC", t, "harness-panic|escaped", "a panic escaped the step interpreter"),
+			}
+			true
+		}
+	}
 }
 
 pub fn run_conc(case: &ConcCase, opts: Opts) -> RunResult {
@@ -329,9 +449,9 @@ pub fn run_conc(case: &ConcCase, opts: Opts) -> RunResult {
 		let env = env.clone();
 		let done = done_tx.clone();
 		let prog = case.programs[t].clone();
-		let h = std::thread::Builder::new()
-			.stack_size(512 * 1024)
-			.spawn(move || {
+		let h = take_thread();
+		h.start(Box::new(move || {
+			{
 				install(&env.exec, t as Tid);
 				let mut ctx = ThreadCtx::new(t as Tid);
 				let started = env.exec.thread_start(t as Tid).is_ok();
@@ -357,11 +477,13 @@ pub fn run_conc(case: &ConcCase, opts: Opts) -> RunResult {
 					}
 				}
 				finish_thread(&env, &mut ctx);
+				drop(ctx);
 				env.exec.thread_finish(t as Tid);
 				uninstall();
+				drop(env);
 				let _ = done.send(t as Tid);
-			})
-			.expect("spawn");
+			}
+		}));
 		handles.push(h);
 	}
 	let mut hung = false;
@@ -377,7 +499,7 @@ pub fn run_conc(case: &ConcCase, opts: Opts) -> RunResult {
 	let mut all_joined = true;
 	if !hung {
 		for h in handles {
-			if h.join().is_err() {
+			if !h.finish(Duration::from_secs(30)) {
 				all_joined = false;
 			}
 		}
